@@ -139,7 +139,7 @@ def unpackAuth (buf : Bytes) : Res Pkt :=
       pure (.auth reason m d)
 
 def unpackConnect (buf : Bytes) : Res Pkt :=
-  if buf.length < (Gen.connectHeaderLength + 1).toNat then .err else do
+  if buf.length < (Gen.connectHeaderLength.toNat + 1) then .err else do
     let f ← getB buf 0
     let proto ← getB buf 1
     if proto ≠ 1 then .err else do
@@ -203,7 +203,7 @@ def unpackSubscribe (buf : Bytes) : Res Pkt :=
       let n ← sliceFrom buf 3
       pure (.subscribe dup qos tit m 0 n)
     else if tit = Gen.TIT_PREDEFINED ∨ tit = Gen.TIT_SHORT then
-      if buf.length ≠ (Gen.subscribeHeaderLength + 2).toNat then .err else do
+      if buf.length ≠ (Gen.subscribeHeaderLength.toNat + 2) then .err else do
         let t ← get16 buf 3
         pure (.subscribe dup qos tit m t [])
     else .err
@@ -223,7 +223,7 @@ def unpackUnsubscribe (buf : Bytes) : Res Pkt :=
       let n ← sliceFrom buf 3
       pure (.unsubscribe tit m 0 n)
     else if tit = Gen.TIT_PREDEFINED ∨ tit = Gen.TIT_SHORT then
-      if buf.length ≠ (Gen.unsubscribeHeaderLength + 2).toNat then .err else do
+      if buf.length ≠ (Gen.unsubscribeHeaderLength.toNat + 2) then .err else do
         let t ← get16 buf 3
         pure (.unsubscribe tit m t [])
     else .err
@@ -238,38 +238,48 @@ def unpackRcOnly (mk : UInt8 → Pkt) (expected : UInt16) (buf : Bytes) : Res Pk
   if buf.length ≠ expected.toNat then .err else do
     let rc ← getB buf 0; pure (mk rc)
 
-/-- `NewPacketWithHeader` followed by the type's `Unpack`. -/
+def unpackWillMsg (buf : Bytes) : Res Pkt := pure (.willmsg buf)
+def unpackPingreq (buf : Bytes) : Res Pkt := pure (.pingreq buf)
+def unpackWillMsgUpd (buf : Bytes) : Res Pkt := pure (.willmsgupd buf)
+def unpackPingresp (buf : Bytes) : Res Pkt :=
+  if buf.length ≠ Gen.pingrespVarPartLength.toNat then .err else pure .pingresp
+
+/-- the `switch` of `NewPacketWithHeader`: packet type code ↦ the struct's `Unpack`. -/
+def unpackTable : List (UInt8 × (Bytes → Res Pkt)) := [
+  (Gen.tADVERTISE, unpackAdvertise),
+  (Gen.tSEARCHGW, unpackSearchGw),
+  (Gen.tGWINFO, unpackGwInfo),
+  (Gen.tAUTH, unpackAuth),
+  (Gen.tCONNECT, unpackConnect),
+  (Gen.tCONNACK, unpackConnack),
+  (Gen.tWILLTOPICREQ, unpackWillTopicReq),
+  (Gen.tWILLTOPIC, unpackWillTopicLike .willtopic),
+  (Gen.tWILLMSGREQ, unpackWillMsgReq),
+  (Gen.tWILLMSG, unpackWillMsg),
+  (Gen.tREGISTER, unpackRegister),
+  (Gen.tREGACK, unpackRegack),
+  (Gen.tPUBLISH, unpackPublish),
+  (Gen.tPUBACK, unpackPuback),
+  (Gen.tPUBCOMP, unpackMsgIdOnly .pubcomp Gen.pubcompVarPartLength),
+  (Gen.tPUBREC, unpackMsgIdOnly .pubrec Gen.pubrecVarPartLength),
+  (Gen.tPUBREL, unpackMsgIdOnly .pubrel Gen.pubrelVarPartLength),
+  (Gen.tSUBSCRIBE, unpackSubscribe),
+  (Gen.tSUBACK, unpackSuback),
+  (Gen.tUNSUBSCRIBE, unpackUnsubscribe),
+  (Gen.tUNSUBACK, unpackMsgIdOnly .unsuback Gen.unsubackVarPartLength),
+  (Gen.tPINGREQ, unpackPingreq),
+  (Gen.tPINGRESP, unpackPingresp),
+  (Gen.tDISCONNECT, unpackDisconnect),
+  (Gen.tWILLTOPICUPD, unpackWillTopicLike .willtopicupd),
+  (Gen.tWILLTOPICRESP, unpackRcOnly .willtopicresp Gen.willTopicRespVarPartLength),
+  (Gen.tWILLMSGUPD, unpackWillMsgUpd),
+  (Gen.tWILLMSGRESP, unpackRcOnly .willmsgresp Gen.willMsgRespVarPartLength)]
+
+/-- `NewPacketWithHeader` followed by the type's `Unpack` (unknown type: error). -/
 def unpackBody (t : UInt8) (buf : Bytes) : Res Pkt :=
-  if t = Gen.tADVERTISE then unpackAdvertise buf
-  else if t = Gen.tSEARCHGW then unpackSearchGw buf
-  else if t = Gen.tGWINFO then unpackGwInfo buf
-  else if t = Gen.tAUTH then unpackAuth buf
-  else if t = Gen.tCONNECT then unpackConnect buf
-  else if t = Gen.tCONNACK then unpackConnack buf
-  else if t = Gen.tWILLTOPICREQ then unpackWillTopicReq buf
-  else if t = Gen.tWILLTOPIC then unpackWillTopicLike .willtopic buf
-  else if t = Gen.tWILLMSGREQ then unpackWillMsgReq buf
-  else if t = Gen.tWILLMSG then pure (.willmsg buf)
-  else if t = Gen.tREGISTER then unpackRegister buf
-  else if t = Gen.tREGACK then unpackRegack buf
-  else if t = Gen.tPUBLISH then unpackPublish buf
-  else if t = Gen.tPUBACK then unpackPuback buf
-  else if t = Gen.tPUBCOMP then unpackMsgIdOnly .pubcomp Gen.pubcompVarPartLength buf
-  else if t = Gen.tPUBREC then unpackMsgIdOnly .pubrec Gen.pubrecVarPartLength buf
-  else if t = Gen.tPUBREL then unpackMsgIdOnly .pubrel Gen.pubrelVarPartLength buf
-  else if t = Gen.tSUBSCRIBE then unpackSubscribe buf
-  else if t = Gen.tSUBACK then unpackSuback buf
-  else if t = Gen.tUNSUBSCRIBE then unpackUnsubscribe buf
-  else if t = Gen.tUNSUBACK then unpackMsgIdOnly .unsuback Gen.unsubackVarPartLength buf
-  else if t = Gen.tPINGREQ then pure (.pingreq buf)
-  else if t = Gen.tPINGRESP then
-    (if buf.length ≠ Gen.pingrespVarPartLength.toNat then .err else pure .pingresp)
-  else if t = Gen.tDISCONNECT then unpackDisconnect buf
-  else if t = Gen.tWILLTOPICUPD then unpackWillTopicLike .willtopicupd buf
-  else if t = Gen.tWILLTOPICRESP then unpackRcOnly .willtopicresp Gen.willTopicRespVarPartLength buf
-  else if t = Gen.tWILLMSGUPD then pure (.willmsgupd buf)
-  else if t = Gen.tWILLMSGRESP then unpackRcOnly .willmsgresp Gen.willMsgRespVarPartLength buf
-  else .err
+  match unpackTable.lookup t with
+  | some f => f buf
+  | none => .err
 
 /-- `packets1.ReadPacket` on the datagram `bs` (already cut to the bytes read). -/
 def decode (bs : Bytes) : Res (Header × Pkt) := do
